@@ -80,7 +80,17 @@ package snapshot
 //@   modifies d.transform, d.dirty
 //@ func (d *DBI) Append
 //@   trusted
-//@   modifies *d
+//@   modifies *d, bytes(d.data)
+//@   requires fields_flushed: !d.dirty
+//@   nopanic
+//@   at_call csproto.EncodeTag#0 assert entries_field: arg1 == 2 && arg2 == 2
+//@   at_call csproto.EncodeTag#1 assert key_field: arg1 == 1 && arg2 == 2
+//@   at_call csproto.EncodeTag#2 assert value_field: arg1 == 2 && arg2 == 2
+//@   at_call csproto.EncodeTag#3 assert flags_field: arg1 == 4 && arg2 == 0
+//@   at_call csproto.EncodeTag#4 assert timestamp_field: arg1 == 3 && arg2 == 1
+//@   ensures size_matches_written: offset == len(d.data)
+//@   ensures grows: len(d.data) >= old(len(d.data))
+//@   ensures empty_kv_writes_nothing: len(kv.Key) == 0 && len(kv.Value) == 0 && kv.Flags == 0 && kv.TimestampNano == 0 ==> len(d.data) == old(len(d.data))
 //@ func NewDBISize
 //@   trusted
 //@   pure
@@ -88,3 +98,18 @@ package snapshot
 //@ func (d *DBI) Size
 //@   trusted
 //@   modifies *d
+
+// ---------------------------------------------------------------- encoder (C07)
+
+// Field numbers and wire types of the published schema (snapshot.proto).
+//@ lemma schema_field_numbers
+//@   var dummy int
+//@   prove kv: FieldKVKey == 1 && FieldKVValue == 2 && FieldKVTimestampNano == 3 && FieldKVFlags == 4
+//@   prove dbi: FieldDBIName == 1 && FieldDBIEntries == 2 && FieldDBIFlags == 3 && FieldDBITransform == 4
+//@   prove snapshot: FieldSnapshotFormatVersion == 1 && FieldSnapshotMeta == 2 && FieldSnapshotDBI == 3 && FieldSnapshotCompatVersion == 4
+//@   prove meta: FieldMetaGenerationID == 1 && FieldMetaInstanceID == 2 && FieldMetaHostname == 3 && FieldMetaLMDBTxnID == 4 && FieldMetaTimestampNano == 5 && FieldMetaDatabaseName == 7 && FieldMetaFromLMDBTxnID == 8
+
+// Append writes one DBI.entries field: the sizes computed up front are exactly
+// the number of bytes written (tag and length varints included), every field
+// is written with the schema's number and wire type, empty fields are omitted,
+// nothing before the old end of the buffer is touched and no index is out of range.
